@@ -33,7 +33,7 @@ def check(pid, tier, args):
             o.write(json.dumps(c) + "\n")
     out = os.path.join(sc, "c17")
     os.makedirs(out, exist_ok=True)
-    seeded = 400 if tier == "quick" else 20000
+    seeded = 3000 if tier == "quick" else 20000
     vlib.run([drive, "iccdesc", "-cases", cases, "-out", out, "-seeded", str(seeded), "-seed", str(vlib.seed())],
              timeout=3000)
     results, rejects, lines = vlib.validate_trace("TraceIccTags", "TraceIccTags.cfg",
